@@ -31,6 +31,57 @@ def r_refuse(ctx: Ctx, rt: RT):
                            f"a metadata line 'material,a,b' is not refused with ParsingError: {oc!r}"), nontrivial_key=("refuse", "csv"))
 
 
+def r_cast(ctx: Ctx, rt):
+    """the text -> value sniffing used by the CSV and AIF importers, interpreted for real (the round-trip rule above treats it as
+    the inverse of str()): conversions are instrumented so that the *route* a number takes is visible - an integer must be built
+    by int(text) directly; int(float(text)) silently changes integers above 2**53"""
+    ctx.rule("RT-cast: cast_string(str(v)) == v on the value domain: digits -> int(text) (not via float), decimal / exponent text -> "
+             "float(text), True/False/None spellings -> the constants, '[..]' -> list, any other text unchanged")
+    from ..domain import make_interp
+    from ..absint import Obj as _Obj
+    model = rt.model
+    fi = model.func("pygaps.utilities.string_utilities.cast_string")
+    I = make_interp(model)
+
+    def conv(kind):
+        def f(I, a, k, n):
+            v = a[0]
+            if isinstance(v, str):
+                try:
+                    (int if kind == "int" else float)(v)
+                except ValueError:
+                    raise I.fault("ValueError", n, f"invalid literal for {kind}(): {v!r}")
+                return _Obj(kind="Conv", label=f"{kind}({v!r})", attrs={"route": (kind, v)})
+            if isinstance(v, _Obj) and v.kind == "Conv":
+                return _Obj(kind="Conv", label=f"{kind}({v.label})", attrs={"route": (kind,) + v.attrs["route"]})
+            return v
+        return f
+    I.ext["builtins.int"] = conv("int")
+    I.ext["builtins.float"] = conv("float")
+    import ast as _a
+    I.ext["ast.literal_eval"] = lambda I, a, k, n: I.from_py(_a.literal_eval(a[0])) if isinstance(a[0], str) else a[0]
+    cases = {"12": ("int", "12"), "9007199254740993": ("int", "9007199254740993"), "0": ("int", "0"), "1.5": ("float", "1.5"),
+             "1e-07": ("float", "1e-07"), "-2.5": ("float", "-2.5"), "True": True, "False": False, "None": None, "": None,
+             "hello world": "hello world", "N2": "N2", "1.2.3": "1.2.3"}
+    for text, want in cases.items():
+        outs = I.explore(lambda I: I.call_func(fi, [text], {}, None))
+        got = None
+        ok = len(outs) == 1 and outs[0].kind == "ok"
+        if ok:
+            v = outs[0].value
+            got = v.attrs["route"] if isinstance(v, _Obj) and v.kind == "Conv" else v
+            ok = got == want and type(got) is type(want)
+        ctx.ob(ok, Finding("C07.RT-cast", fi.where, f"cast_string|{text!r}",
+                           f"cast_string({text!r}) yields {got!r} (conversion route shown for numbers); required {want!r}"
+                           + (" - an integer must be parsed by int(text); through float() integers above 2**53 come back changed"
+                              if isinstance(want, tuple) and want[0] == "int" else "")),
+               nontrivial_key=("cast", text))
+    outs = I.explore(lambda I: I.call_func(fi, ["[1 2 3]"], {}, None))
+    ctx.ob(len(outs) == 1 and outs[0].kind == "ok" and isinstance(outs[0].value, list) and len(outs[0].value) == 3,
+           Finding("C07.RT-cast", fi.where, "cast_string|list", f"cast_string('[1 2 3]') yields {outs[0]!r}; required a 3-element list"),
+           nontrivial_key=("cast", "list"))
+
+
 def run(ctx: Ctx):
     rt = RT(ctx.root)
     ctx.assume("pandas to_csv/read_csv, xlwt/xlrd and gemmi carry in-domain scalar values unchanged")
@@ -42,6 +93,7 @@ def run(ctx: Ctx):
     rc.r_branch_canon(ctx, rt, "C07")
     rc.r_model_state(ctx, rt, "C07")
     r_refuse(ctx, rt)
+    r_cast(ctx, rt)
     # AIF rounds with the same constant
     import ast
     wf = rt.model.func("pygaps.parsing.aif.isotherm_to_aif")
